@@ -17,9 +17,20 @@
 #                 nothing to the driver (key app-send:...).
 # The oracle follows the devices' addresses and claim windows from the case and from the observable log:
 #   claim starts: Open() completing (note:open), `C idev`, a delivered PGN 60928 (dlv:..60928..) from one of our addresses whose NAME
-#   is not higher than ours (the loser takes the next free address; equal NAME inside a window bumps the device instance instead).
+#   is not higher than ours (the loser takes the next free address; equal NAME inside a window bumps the device instance instead),
+#   a delivered commanded address: a complete PGN 65240 transfer by ISO-TP (BAM, or RTS/CTS to the address of one of our devices) of 9
+#   bytes whose first 8 bytes are the NAME of one of our devices (of the addressed device for RTS/CTS) and whose 9th byte is another
+#   address 0..251: the device takes that address at the poll that reassembles the message and its 250 ms window opens there.
+#   Every claim start must be announced: the SendFrame of the handler - the last one before the delivery is logged - must hand the
+#   device's PGN 60928 to the driver unless the driver refused the queue head (then the claim waits in the queue); key gate:...
+#   Two devices commanded to the same address (the D-04 sibling case) are followed per device: a frame with the shared address is
+#   accepted if one of the holders is entitled.
+#   Not followed (judged on mode / open / settle only, counted as 'untracked'): group functions (PGN 126208), and histories in which
+#   PGN 65240 also arrives as a fast packet (the log does not tell the carriage of a delivered message).
 #   The state dump at the end of the result line is used as a cross-check of this bookkeeping: if the two differ the address-dependent
-#   judgements of the case are dropped (never reported), and the case is counted in oracle.stats['desync'].
+#   judgements of the case are dropped (never reported), and the case is counted in oracle.stats['desync'].  Addresses, NAMEs and the
+#   end-of-claim-run address are compared; the library's claim timer is NOT: the window is defined by the property (250 ms from the
+#   claim start), so a library that does not arm its timer is judged, not excused.
 # Production time of a frame: the log shows only driver calls.  A frame is attempted directly only when the queue is empty; a frame
 # that is queued silently always follows a refused attempt of the queue head in the same SendFrame.  The oracle therefore keeps the
 # known head of the queue and the list of "gaps" (positions right after a refused attempt) and judges a frame that surfaces later
@@ -183,6 +194,25 @@ class Tracker:
             self.next_address(i, False)
         return i                       # the caller takes the snapshot for the handler's frames and then arms the timer
 
+    def commanded_received(self, dst, ln, data):
+        """HandleCommandedAddress for a message delivered by ISO-TP; returns the device that takes a new address, or None"""
+        if not self.ready() or ln != 9 or len(data) < 9:
+            return None
+        i = self.find(dst)
+        if dst != 255 and i < 0:
+            return None
+        new = data[8]
+        if new >= 252:
+            return None
+        name = int.from_bytes(bytes(data[:8]), 'little')
+        for j in (range(len(self.devs)) if i < 0 else [i]):
+            d = self.devs[j]
+            if d.name == name and d.addr != new:
+                d.addr = new
+                d.end = end_of(new)
+                return j                   # NAMEs are distinct: at most one device matches
+        return None
+
     def snap(self, alias=None, starting=None):
         """(time, per device (address, claim pending, boundary millisecond, claim start in progress), alias)"""
         return (self.now, tuple((d.addr, d.timer is not None and not self.expired(d.timer),
@@ -208,7 +238,7 @@ def entitled(snap, pgn, src):
 
 
 def scan_untracked(ops):
-    """things this oracle does not follow: commanded address (PGN 65240 by ISO-TP), group functions"""
+    """things this oracle does not follow: group functions; PGN 65240 arriving as a fast packet (carriage not visible in the log)"""
     for o in ops:
         if o and o[0] == 'R' and len(o) >= 4:
             try:
@@ -216,7 +246,7 @@ def scan_untracked(ops):
                 d = bytes.fromhex(o[3]) if o[3] != '-' else b''
             except ValueError:
                 return True
-            if pgn == 60416 and len(d) >= 8 and (d[5] | d[6] << 8 | d[7] << 16) in (65240, 126208):
+            if pgn == 60416 and len(d) >= 8 and (d[5] | d[6] << 8 | d[7] << 16) == 126208:
                 return True
             if pgn in (65240, 126208):
                 return True
@@ -414,6 +444,8 @@ def make_oracle(fs, stats=None):
                     changed = None
                     if dpgn == 60928:
                         changed = tr.claim_received(dsrc, dlen, ddata)
+                    elif dpgn == 65240:
+                        changed = tr.commanded_received(ddst, dlen, ddata)
                     elif dpgn == 59904 and tr.ready():
                         if ddst == 255:
                             for i in range(ndev):
@@ -441,6 +473,15 @@ def make_oracle(fs, stats=None):
                             for j in range(last_ref + 1, n - 1):
                                 if decode_id(seg[j][1])[1] in INTERNAL_PGNS:
                                     sure = j + 1
+                        # the claim start must be announced: the handler's SendFrame ends the segment, either with the claim of the
+                        # device's (new) address or with a refused flush (the claim then waits in the queue)
+                        nd = tr.devs[changed]
+                        announced = n > 0 and (not seg[-1][4] or (decode_id(seg[-1][1])[1] == 60928 and decode_id(seg[-1][1])[2] == nd.addr
+                                                                  and list(seg[-1][3]) == list(nd.name.to_bytes(8, 'little'))))
+                        if not announced:
+                            soft.append('gate:op %d at t=%d: device %d starts a claim for address %d (%s) without handing its address claim to the driver'
+                                        % (k, tr.now, changed, nd.addr, 'commanded address' if dpgn == 65240 else 'competing claim'))
+                            sure = n        # nothing in the segment is the handler's
                         for j, x in enumerate(seg):
                             if j >= sure:
                                 judge(x, k, post)
@@ -466,7 +507,7 @@ def make_oracle(fs, stats=None):
             dumped = re.findall(r'dev(\d+)\{src=(\d+) end=(\d+) name=([0-9a-f]+) claim=(\w+)', state)
             if len(dumped) == ndev:
                 for (i, s, en, nm, cl), d in zip(dumped, tr.devs):
-                    if int(s) != d.addr or int(nm, 16) != d.name or (cl != 'off') != (d.timer is not None) or int(en) != d.end:
+                    if int(s) != d.addr or int(nm, 16) != d.name or int(en) != d.end:
                         desync = True
             elif 'open=3' in state:
                 desync = True
@@ -719,6 +760,87 @@ def gen_backpressure(r, cases, thorough):
         cases.append(cfg(mode, ndev, src, q=q, t0=r.choice(T0S)) + ' | ' + ' ; '.join(ops))
 
 
+def commanded(r, peer, dst, name, newaddr, bam, split_poll=False):
+    """a complete PGN 65240 transfer by ISO-TP: BAM (dst 255) or RTS/CTS to dst; 9 bytes = NAME + new address"""
+    payload = list(name.to_bytes(8, 'little')) + [newaddr & 255]
+    d = 255 if bam else dst
+    ops = [tp_rts(65240, peer, d, 9, maxp=r.choice([255, 2, 1]), bam=bam)]
+    if split_poll:
+        ops.append('P')
+    ops.append(tp_dt(peer, d, 1, payload[:7]))
+    if split_poll and r.random() < 0.5:
+        ops.append('P')
+    ops.append(tp_dt(peer, d, 2, payload[7:]))
+    return ops
+
+
+def gen_commanded(r, cases, thorough):
+    """commanded address (PGN 65240 by ISO-TP, both carriages) at various offsets relative to sends, requests, heartbeat, other claims"""
+    offs = [0, 1, 2, 3, 50, 100, 249, 250, 251, 252, 300]
+    for rep in range(170 if not thorough else 3000):
+        mode = r.choice([1, 1, 1, 2, 2, 2, 3, 4, 0])
+        ndev = r.choice([1, 2, 2, 3])
+        src = r.choice([0, 22, 30, 100, 252 - ndev])
+        own = [own_addr(src, i) for i in range(ndev)]
+        names = [dev_name(i) for i in range(ndev)]
+        target = r.randrange(ndev)
+        hb = r.random() < 0.2
+        peer = r.choice([50, 51, 77])
+        ops = []
+        if hb:
+            ops.append('T %d' % r.choice([9100, 9150, 9199, 9200, 9201, 9250]))
+        backp = r.random() < 0.15
+        if backp:
+            ops += ['A ' + '0' * r.randint(1, 4), smsg(r, target, pgn=r.choice(SINGLE))]
+        for _ in range(r.randint(0, 2)):
+            ops += stimulus(r, ndev, own, target)
+        if r.random() < 0.15:       # a claim window already open when the command arrives
+            trg, own = trigger(r, ndev, own, target, names)
+            ops += trg + ['T %d' % r.choice([0, 100, 251])]
+        # what is commanded
+        y = r.random()
+        others = [a for j, a in enumerate(own) if j != target]
+        if y < 0.55:
+            nm, na = names[target], r.choice([40, 41, 0, 251, 120])
+        elif y < 0.65:
+            nm, na = names[target], own[target]                       # the address it already has: no change
+        elif y < 0.73:
+            nm, na = names[target], r.choice([252, 253, 254, 255])    # not an address: no change
+        elif y < 0.81:
+            nm, na = r.choice([5, names[target] + 16, NAME0 - 1]), 40  # NAME of nobody
+        elif y < 0.9 and others:
+            nm, na = names[target], r.choice(others)                  # a sibling's address (D-04 region)
+        else:
+            nm, na = names[target], r.choice([40, 200])
+        bam = r.random() < 0.45
+        dst = own[target] if r.random() < 0.85 else r.choice(others + [99])     # RTS/CTS to another device / to nobody: ignored
+        cmd = commanded(r, peer, dst, nm, na, bam, split_poll=r.random() < 0.4)
+        ops += cmd
+        changes = nm == names[target] and na <= 251 and na != own[target] and (bam or dst == own[target]) and mode in (1, 2)
+        if changes:
+            own = list(own)
+            own[target] = na
+        t = 0
+        for m in sorted(r.sample(offs, r.randint(1, 5))):
+            if m > t:
+                ops.append('T %d' % (m - t))
+                t = m
+            if t == m and 'P' not in ops[-3:] and r.random() < 0.9:
+                ops.append('P')
+            for _ in range(r.randint(1, 3)):
+                ops += stimulus(r, ndev, own, r.choice([target, target, r.randrange(ndev)]))
+            if r.random() < 0.1:
+                na2 = r.choice([60, 61, own[target]])
+                ops += commanded(r, peer, own[target], names[target], na2, r.random() < 0.5) + ['P']
+                if mode in (1, 2):
+                    own = list(own)
+                    own[target] = na2
+        if backp:
+            ops.append('A')
+        ops.append('P')
+        cases.append(cfg(mode, ndev, src, q=r.choice([40, 40, 3]) if not backp else r.choice([2, 3]), slots=r.choice([5, 3]), t0=r.choice(T0S), hb=hb) + ' | ' + ' ; '.join(ops))
+
+
 def gen(seed, tier):
     r = random.Random(seed * 7919 + 4)
     thorough = tier != 'quick'
@@ -728,6 +850,7 @@ def gen(seed, tier):
     gen_pending(r, cases, thorough)
     gen_null(r, cases, thorough)
     gen_backpressure(r, cases, thorough)
+    gen_commanded(r, cases, thorough)
     for _ in range(150 if not thorough else 3000):
         cases.append(random_history(r, n_ops=r.choice([10, 25, 40])))
     return cases
